@@ -22,9 +22,9 @@ def unscale(r):
 def bezier_curve_roundtrip(ctx, tg, small, P, p, num, exp):
     from geomdl import BSpline, NURBS, operations
     site = "operations.degree_operations"
-    W = [1.0, 2.0, 0.5, 3.0, 1.0, 2.0, 0.5, 3.0, 1.0, 2.0]
-    for rat in (False, True):
-        t2 = tg + ["bezier_curve", "rational" if rat else "nonrational"]
+    W0 = [1.0, 2.0, 0.5, 3.0, 1.0, 2.0, 0.5, 3.0, 1.0, 2.0]
+    for rat, W, wl in ((False, W0, ""), (True, W0, "mixed_weights"), (True, [1.0] * 10, "unit_weights"), (True, [2.5] * 10, "equal_weights")):
+        t2 = tg + ["bezier_curve", "rational" if rat else "nonrational"] + ([wl] if wl else [])
 
         def mk():
             c = (NURBS.Curve if rat else BSpline.Curve)()
